@@ -17,7 +17,7 @@ from .. import common, rt, corpus, gen_wide, tel
 
 PROP = 'C06'
 MODULES = ['Cnl2aspModel.Props.C06']
-THEOREMS = ['C06_value', 'C06_bounds']
+THEOREMS = ['C06_value', 'C06_bounds', 'C06_core_safe']
 
 VAR_RE = re.compile(r'(?<![A-Za-z0-9_"])[A-Z][A-Z0-9_]*(?![A-Za-z0-9_"(])')
 
@@ -192,7 +192,7 @@ def main(tier):
     run.coverage['rule'] = ('unit: generated values x constant sets through the real convert_value vs the model; search: outputs of the wide and '
                             'temporal generators, the stress forms and the corpus, parsed by clingo.ast and grounded by clingo (telingo for programs '
                             'with temporal parts); non-trivial = distinct accepted specification')
-    run.lean(MODULES, THEOREMS, extra_modules=['Cnl2aspModel.Compiler.Value'])
+    run.lean(MODULES, THEOREMS, extra_modules=['Cnl2aspModel.Compiler.Value', 'Cnl2aspModel.Cnl.Safety', 'Cnl2aspModel.Cnl.RefExecSound'])
     # ---- unit --------------------------------------------------------------
     from cnl2asp.converter.asp_converter import ASPConverter
     from cnl2asp.specification.attribute_component import ValueComponent
@@ -246,6 +246,7 @@ def main(tier):
             cls = r['kind'].split(':')[0]
             run.violation(f'{kind}/{classify(r, msg)}', f'{kind}: {msg[:250]}', {'cnl': r['text'], 'program': r['program'], 'message': msg})
     run.coverage['program_stats'] = stats
+    core_safety(run, rng, tier)
     for r in results[-3:]:
         if 'program' in r:
             run.sample({'cnl': r['text'][:300], 'program': r['program'][:300]})
@@ -257,6 +258,31 @@ def main(tier):
 
 LOC_RE = re.compile(r'(?:<string>|\.lp):(\d+):(\d+)-(\d+)')
 F15_RE = re.compile(r'[Ww]henever there is an? (\w+) ([A-Z]\w*)\b[^.]*\bthen [^.]*\bcan [^.]*\b\1 \2\.')
+
+
+def core_safety(run, rng, tier):
+    """C06_core_safe on the real code: for generated core specifications the real output is rule by rule the model's `compile`
+    (correspondence of C01), the driver evaluates the theorem's hypothesis (range restriction), and clingo must ground the program"""
+    from . import c01
+    from .. import gen_core
+    specs = [gen_core.gen_spec(rng) for _ in range(80 if tier == 'quick' else 800)]
+    comp = common.run_model([('c01.compile', {'spec': sp.ast(), 'order': sp.order}) for sp in specs])
+    safe = common.run_model([('c01.safe', {'spec': sp.ast()}) for sp in specs])
+    results = rt.pmap(c01._job, [(sp.text(), sp.ast(), sp.order) for sp in specs], chunksize=2)
+    n = 0
+    for sp, a, sf, r in zip(specs, comp, safe, results):
+        if 'rejected' in r or a is None or 'err' in a or 'rules' not in r:
+            continue
+        model = set(c01.canon_rule(*c01.m_rule(x)) for rules in a['rules'] for x in rules)
+        if model != set(r['rules']) or not (sf and sf.get('safe')):
+            continue          # reported by C01; the theorem is not claimed for this program
+        n += 1
+        run.count(('core-safe', sp.text()))
+        if r.get('solver_error'):
+            run.broke('corr', 'clingo rejects a program that C06_core_safe proves safe (the safety condition of the model is not the solver\'s)',
+                      {'cnl': sp.text(), 'program': r['program'], 'error': r['solver_error']})
+            break
+    run.coverage['core_programs_proved_safe_and_grounded'] = n
 
 
 def classify(r, msg):
